@@ -133,11 +133,11 @@ def export_facts(config, repo=None, crate="melda", quiet=True):
         if p.returncode != 0 or not os.path.exists(out):
             sys.stderr.write(p.stdout[-4000:])
             raise RuntimeError("fact export failed for config %s (exit %d)" % (config, p.returncode))
-        # prune old fact directories (keep the 6 most recent)
+        # prune old fact directories (keep the 40 most recent)
         base = os.path.join(CACHE, "facts")
         ds = sorted((os.path.getmtime(os.path.join(base, d)), d) for d in os.listdir(base)
                     if os.path.isdir(os.path.join(base, d)))
-        for _, d in ds[:-6]:
+        for _, d in ds[:-40]:
             shutil.rmtree(os.path.join(base, d), ignore_errors=True)
         return out, th, True
     finally:
